@@ -165,6 +165,7 @@ class World:
         self.valuation = valuation   # concrete mode: callable(symname) -> number
         self.terminal_hook = None    # callable(world, e, comp, env) -> value | NotImplemented
         self.opq_hook = None         # callable(world, e, comp, env) -> value | NotImplemented (defines opaque operands)
+        self.operator_hook = None    # callable(world, e, comp, env) -> value | NotImplemented (tried first for every non-terminal)
         self.extra_axioms = []
         self._memos = {}
         self.two_sided = False       # interior-facet semantics: values live on the '+' or '-' side
@@ -188,7 +189,7 @@ class World:
         return N.bconst(q, self.symbolic)
 
     def memo(self):
-        sig = (tuple(L.key() for L in self.layers), self.side_of_facet, id(self.opq_hook), id(self.terminal_hook),
+        sig = (tuple(L.key() for L in self.layers), self.side_of_facet, id(self.opq_hook), id(self.terminal_hook), id(getattr(self, 'operator_hook', None)),
                tuple(sorted(self.spatial_const)), self.complex)
         m = self._memos.get(sig)
         if m is None:
@@ -315,6 +316,10 @@ def _den(w: World, e, comp, env):
             if r is not NotImplemented:
                 return r
         return w.opq(e, comp, env)
+    if getattr(w, "operator_hook", None) is not None and not e._ufl_is_terminal_:
+        r = w.operator_hook(w, e, comp, env)
+        if r is not NotImplemented:
+            return r
     if len(comp) != len(e.ufl_shape):
         raise Unsupported(f"component {comp} for shape {e.ufl_shape} of {type(e).__name__}")
 
